@@ -886,11 +886,32 @@ func runDedupe(p *Program, c *Collector, d FuncRuleSpec) {
 				key := sf.val(mu.Key)
 				// values emitted in the same iteration (appends / map stores of non-constants) after the insertion
 				keyAtoms := symAtoms(key)
+				type kept struct {
+					elem  *Sym
+					block *ssa.BasicBlock
+				}
+				var keeps []kept
 				for _, e := range sf.emissions() {
-					if !region[e.block] || e.block == nil {
+					if e.target == "mapstore:"+sf.val(mu.Map).String() {
 						continue
 					}
-					if e.target == "mapstore:"+sf.val(mu.Map).String() {
+					keeps = append(keeps, kept{e.elem, e.block})
+				}
+				// appends to local slices are SSA values, not stores
+				for rb := range region {
+					for _, i2 := range rb.Instrs {
+						if ap, ok := isBuiltinCall(i2, "append"); ok {
+							v := sf.val(ap)
+							if v.Op == "append" {
+								for _, k := range v.Kids[1:] {
+									keeps = append(keeps, kept{k, rb})
+								}
+							}
+						}
+					}
+				}
+				for _, e := range keeps {
+					if !region[e.block] || e.block == nil {
 						continue
 					}
 					valAtoms := symAtoms(e.elem)
